@@ -25,6 +25,8 @@ pub struct WriteAheadLog {
     flush_queue: VecDeque<WalBlock>,
     file: DBFile,
     block_size: usize,
+    /// Data blocks (numbered from 1) that are complete on disk and are never rewritten.
+    flushed_blocks: u64,
 }
 
 impl FileOperations for WriteAheadLog {
@@ -40,6 +42,7 @@ impl FileOperations for WriteAheadLog {
             flush_queue: VecDeque::new(),
             file,
             block_size,
+            flushed_blocks: 0,
         })
     }
 
@@ -61,12 +64,20 @@ impl FileOperations for WriteAheadLog {
             block_size
         };
 
+        // Every data block already in the file is final: new records start a fresh block after them.
+        let flushed_blocks = header_buf
+            .metadata()
+            .wal_header
+            .total_blocks
+            .saturating_sub(1);
+
         Ok(Self {
             header: header_buf,
             current_block: None, // If needed, will be allocated on push.
             flush_queue: VecDeque::new(),
             file,
             block_size,
+            flushed_blocks,
         })
     }
 
@@ -83,6 +94,7 @@ impl FileOperations for WriteAheadLog {
         self.header = BlockZero::alloc(0, self.block_size);
         self.current_block = None;
         self.flush_queue.clear();
+        self.flushed_blocks = 0;
         Ok(())
     }
 }
@@ -301,9 +313,9 @@ impl WriteAheadLog {
         self.header.metadata_mut().wal_header.global_last_lsn = Some(lsn);
         self.header.metadata_mut().wal_header.total_entries += 1;
 
-        // Try to write to block zero first
+        // Try to write to block zero first (only while no later block holds records)
         if self.current_block.is_none() {
-            if self.header.available_space() >= record_size {
+            if self.flushed_blocks == 0 && self.header.available_space() >= record_size {
                 self.header.try_push(lsn, record)?;
                 return Ok(());
             }
@@ -355,9 +367,10 @@ impl WriteAheadLog {
     }
 
     pub fn perform_flush(&mut self) -> io::Result<()> {
-        // Block 0 always exists, additional blocks start at index 1
-        let mut block_number: u64 = 1;
-        let mut write_offset = self.block_size as u64;
+        // Block 0 always exists, additional blocks start at index 1.
+        // Blocks written by earlier flushes are final: continue after them.
+        let mut block_number: u64 = 1 + self.flushed_blocks;
+        let mut write_offset = block_number * self.block_size as u64;
 
         // Flush queued blocks
         while let Some(block) = self.flush_queue.pop_front() {
@@ -365,6 +378,7 @@ impl WriteAheadLog {
             self.file.write_all(block.as_ref())?;
             block_number += 1;
             write_offset += self.block_size as u64;
+            self.flushed_blocks += 1;
         }
 
         // Flush current block if it has data
@@ -379,7 +393,9 @@ impl WriteAheadLog {
         // Update header metadata
         self.header.metadata_mut().wal_header.total_blocks = block_number;
 
-        if let Some(block) = self.current_block.take() {
+        // The block being filled stays in memory: later records are appended to it and the
+        // next flush rewrites it in place.
+        if let Some(ref block) = self.current_block {
             self.header.metadata_mut().wal_header.last_block_used =
                 block.metadata().used_bytes as u32;
         } else {
